@@ -606,6 +606,8 @@ func (st *State) alloc(t types.Type) Value {
 		if ek == VStruct || ek == VSlice || ek == VStr {
 			st.zeroElems(r, arr.Elem(), "elem:"+typeKey(arr.Elem()))
 		}
+		// ghosts declared over backing arrays (ghost g(array) T) start at their zero value
+		st.initGhostsNamed(r, "array")
 		return Value{K: VRef, T: r, Ty: types.NewPointer(t)}
 	}
 	st.storeAt(Addr{Root: r, Key: rootKey(t), Ty: t}, st.zero(t))
@@ -659,7 +661,10 @@ func sortedKeys(m map[string]bool) []string {
 // initGhosts gives ghost fields declared for type t their default value on a fresh object
 // (and, for struct types, on embedded/by-value fields is not attempted: only the object itself).
 func (st *State) initGhosts(r string, t types.Type) {
-	name := fullTypeName(t)
+	st.initGhostsNamed(r, fullTypeName(t))
+}
+
+func (st *State) initGhostsNamed(r string, name string) {
 	for _, g := range st.fx.eng.cs.Ghosts {
 		if g.Arg != name {
 			continue
